@@ -105,7 +105,7 @@ def agent_pos_s(draw, h, w):
 
 
 @st.composite
-def state_s(draw, space, min_hw=1, max_hw=7, valid=False, unique=(), held='any', floor_weight=3, shape=None, depth=2):
+def state_s(draw, space, min_hw=1, max_hw=7, valid=False, unique=(), held='any', floor_weight=3, shape=None, depth=2, allow_grow=False):
     """a state built only from declared types and colours (box contents included).
 
     valid: agent on a non-blocking cell (needs Floor declared).
@@ -146,7 +146,18 @@ def state_s(draw, space, min_hw=1, max_hw=7, valid=False, unique=(), held='any',
             item = draw(obj_s({'types': ['Key'], 'colors': space['colors']}, 0))
         else:
             item = draw(obj_s(space, 1, exclude=tuple(unique), beacon_color=bc))
-    return {'grid': grid, 'agent': [y, x, hd, item]}
+    d = {'grid': grid, 'agent': [y, x, hd, item]}
+    if allow_grow and not unique and shape is None and draw(st.integers(0, 15)) == 0:
+        # a large world tiled from the small one (dimension 40..300, around the 127/128 and 255/256 boundaries); the agent is moved by
+        # whole tiles, so it stands on the same kind of cell
+        H, W = draw(big_shape_s('state'))
+        d = grow(d, H, W)
+        if d['agent'][0] == y and d['agent'][1] == x:
+            d['agent'][0] = y + h * draw(st.integers(0, (H - 1 - y) // h))
+            d['agent'][1] = x + w * draw(st.integers(0, (W - 1 - x) // w))
+        elif valid and M.blocks_movement(d['grid'][d['agent'][0]][d['agent'][1]]):
+            d['grid'][d['agent'][0]][d['agent'][1]] = 'F'
+    return d
 
 
 def chain_s(pool=M.TRANSITIONS, min_size=1):
